@@ -150,73 +150,98 @@ ESC_T = {"$": "expand_env / $( )", "*": "expand_glob", "~": "expand_home", "{": 
          "!": "!! history expansion"}
 
 
-def escape_rule(ctx, crate):
-    from ..mir import FactWalker, const_char, const_str, strip_sites
-    b = crate.fn("parsers::parser_line::parse_line")
-    if not ctx.require(b is not None, "R01-3", "R01-3|anchor", "parsers::parser_line::parse_line not found"):
-        return
-    ctx.analysed(b)
-    # the character loop: next() on enumerate(chars(line))
-    loop = None
-    for h, blocks in b.loops().items():
-        for bb in blocks:
-            t = b.term(bb)
-            if t["k"] == "call" and mir.last_seg(b.callee(t)) == "next" and "Enumerate" in b.callee(t):
-                if loop is None or len(blocks) > len(loop[1]):
-                    loop = (h, blocks, bb)
-    if not ctx.require(loop is not None, "R01-3", "R01-3|%s|loop" % b.path, "character loop not found", b.path):
-        return
-    h, blocks, nb = loop
-    nx = strip_sites(b.call_expr(nb))
-    cexpr = mir.fld(1, mir.fld(0, ("downcast", "Some", nx), "0"))
-    # the escape flag: the bool variable set to true under c == '\\'
-    flag = None
-    for bi, si, st in b.stmts():
-        if bi in blocks and st["k"] == "assign" and not st["place"]["p"] and b.locals[st["place"]["l"]]["ty"] == "bool":
-            if mir.const_bool(b.rvalue_expr(st["rv"])) is True:
-                from .c02 import dom_facts
-                for a, v in dom_facts(b, bi, within=blocks):
-                    if a[0] == "bin" and a[1] == "Eq" and v is True and const_char(a[3]) == "\\" and a[2] == cexpr:
-                        flag = ("var", st["place"]["l"], b.names.get(st["place"]["l"]))
-    if not ctx.require(flag is not None, "R01-3", "R01-3|%s|flag" % b.path, "escape flag not identified", b.path):
-        return
-    # the word buffer: the String that receives push(c)
-    pushes_c = {}
-    for bb, t, c in b.calls():
-        if bb in blocks and mir.last_seg(c) == "push" and "String" in c:
-            a = b.call_args(bb)
-            if len(a) == 2 and strip_sites(a[1]) == cexpr:
-                pushes_c[bb] = mir.root_local_expr(a[0])
-    # markings: a tag variable gets a non-empty constant, or a backslash is pushed into the word
-    marks = set()
-    for bb, t, c in b.calls():
-        if bb in blocks and mir.last_seg(c) == "push" and "String" in c:
-            a = b.call_args(bb)
-            if len(a) == 2 and const_char(a[1]) == "\\":
-                marks.add(bb)
-    for bi, si, st in b.stmts():
-        if bi in blocks and st["k"] == "assign" and not st["place"]["p"] and \
-                b.locals[st["place"]["l"]]["ty"] == "std::string::String" and st["place"]["l"] not in pushes_c.values():
-            e = b.expand_vars(strip_sites(b.rvalue_expr(st["rv"])))
-            s_ = const_str(e)
-            if s_ is None:
-                for sub in mir.subexprs(e):
-                    if sub[0] == "call" and mir.last_seg(sub[1]) in ("from", "to_string", "format", "must_use") and sub[2]:
-                        cs = const_str(sub[2][0])
-                        if cs:
-                            s_ = cs
-            if s_:
-                marks.add(bi)
-    back = {(x, y) for x, y in b.back_edges() if y == h}
-    some_t = [tgt for tgt, atom, val in b.switch_edges(b.succs[nb][0]) if val == "Some"]
-    if not ctx.require(bool(some_t) and pushes_c, "R01-3", "R01-3|%s|shape" % b.path, "loop shape not recognised", b.path):
-        return
-    from ..etag import norm_guard
-    for X, who in sorted(ESC_T.items()):
+class TokenizerModel:
+    """what the character loop of parse_line does with the character after a backslash"""
+
+    def __init__(self, b):
+        from ..mir import const_char, const_str, strip_sites
+        self.b = b
+        self.ok = False
+        self.why = ""
+        loop = None
+        for h, blocks in b.loops().items():
+            for bb in blocks:
+                t = b.term(bb)
+                if t["k"] == "call" and mir.last_seg(b.callee(t)) == "next" and "Enumerate" in b.callee(t):
+                    if loop is None or len(blocks) > len(loop[1]):
+                        loop = (h, blocks, bb)
+        if loop is None:
+            self.why = "character loop not found"
+            return
+        self.h, self.blocks, self.nb = loop
+        h, blocks, nb = loop
+        nx = strip_sites(b.call_expr(nb))
+        self.cexpr = cexpr = mir.fld(1, mir.fld(0, ("downcast", "Some", nx), "0"))
+        flag = None
+        for bi, si, st in b.stmts():
+            if bi in blocks and st["k"] == "assign" and not st["place"]["p"] and b.locals[st["place"]["l"]]["ty"] == "bool":
+                if mir.const_bool(b.rvalue_expr(st["rv"])) is True:
+                    from .c02 import dom_facts
+                    for a, v in dom_facts(b, bi, within=blocks):
+                        if a[0] == "bin" and a[1] == "Eq" and v is True and const_char(a[3]) == "\\" and a[2] == cexpr:
+                            flag = ("var", st["place"]["l"], b.names.get(st["place"]["l"]))
+        if flag is None:
+            self.why = "escape flag not identified"
+            return
+        self.flag = flag
+        pushes_c = {}
+        for bb, t, c in b.calls():
+            if bb in blocks and mir.last_seg(c) == "push" and "String" in c:
+                a = b.call_args(bb)
+                if len(a) == 2 and strip_sites(a[1]) == cexpr:
+                    pushes_c[bb] = mir.root_local_expr(a[0])
+        self.pushes_c = pushes_c
+        marks = set()
+        for bb, t, c in b.calls():
+            if bb in blocks and mir.last_seg(c) == "push" and "String" in c:
+                a = b.call_args(bb)
+                if len(a) == 2 and const_char(a[1]) == "\\":
+                    marks.add(bb)
+        for bi, si, st in b.stmts():
+            if bi in blocks and st["k"] == "assign" and not st["place"]["p"] and \
+                    b.locals[st["place"]["l"]]["ty"] == "std::string::String" and st["place"]["l"] not in pushes_c.values():
+                e = b.expand_vars(strip_sites(b.rvalue_expr(st["rv"])))
+                s_ = const_str(e)
+                if s_ is None:
+                    for sub in mir.subexprs(e):
+                        if sub[0] == "call" and mir.last_seg(sub[1]) in ("from", "to_string", "format", "must_use") and sub[2]:
+                            cs = const_str(sub[2][0])
+                            if cs:
+                                s_ = cs
+                if s_:
+                    marks.add(bi)
+        self.marks = marks
+        self.back = {(x, y) for x, y in b.back_edges() if y == h}
+        self.some_t = [tgt for tgt, atom, val in b.switch_edges(b.succs[nb][0]) if val == "Some"]
+        if not self.some_t or not pushes_c:
+            self.why = "loop shape not recognised"
+            return
+        self.ok = True
+
+    def constants(self):
+        """characters the loop compares the cursor with"""
+        from ..mir import const_char, strip_sites
+        out = set()
+        for bb in self.blocks:
+            for tgt, atom, val in self.b.switch_edges(bb):
+                a = strip_sites(atom)
+                if a[0] == "bin" and a[1] in ("Eq", "Ne") and a[2] == self.cexpr and const_char(a[3]):
+                    out.add(const_char(a[3]))
+        return out
+
+    def erased(self, X, quote=""):
+        """blocks at which an iteration that started with the escape flag set, reading character X inside the quote
+        context `quote` ("" = unquoted word), ends having pushed X without a backslash and without tagging the
+        word; returns (list of such blocks, number of states)"""
+        from ..mir import FactWalker, const_char, strip_sites
+        from ..etag import norm_guard
+        b, blocks, cexpr, flag = self.b, self.blocks, self.cexpr, self.flag
         w = FactWalker(b, lambda a: True, cut_back_edges=False)
         bad = []
+        pushes_c, marks, back = self.pushes_c, self.marks, self.back
+        quotes = ("'", "\"", "`")
 
-        def step(bb, st, X=X, w=w, bad=bad):
+        def step(bb, st):
             facts, marked, pushed = st
             if bb in marks:
                 marked = True
@@ -231,20 +256,22 @@ def escape_rule(ctx, crate):
                         bad.append(bb)
                     continue
                 if atom is not None:
-                    # the character under the cursor is X
                     if atom[0] == "bin" and atom[1] in ("Eq", "Ne") and atom[2] == cexpr and const_char(atom[3]) is not None:
                         truth = (const_char(atom[3]) == X) if atom[1] == "Eq" else (const_char(atom[3]) != X)
                         if truth != val:
                             continue
-                    # an unquoted word: the current tag is empty
                     g = norm_guard(atom, val)
                     if g is not None and g[0] == "is_empty" and g[1][0] == "var" and \
-                            b.locals[g[1][1]]["ty"] == "std::string::String" and g[1][1] not in pushes_c.values():
-                        if g[2] is False and not marked:
-                            # a non-empty tag variable before we set one: quoted context, not ours
+                            b.locals[g[1][1]]["ty"] == "std::string::String" and g[1][1] not in pushes_c.values() and not marked:
+                        # g[2]: the tag variable is empty
+                        if quote == "" and g[2] is False:
                             continue
-                    if g is not None and g[0] == "eq" and g[3] is True and g[1][0] == "var" and not marked and g[2] in ("'", "\"", "`"):
-                        continue
+                        if quote != "" and g[2] is True and _is_tag_var(b, g[1][1]):
+                            continue
+                    if g is not None and g[0] == "eq" and g[1][0] == "var" and not marked and g[2] in quotes and \
+                            _is_tag_var(b, g[1][1]):
+                        if g[3] is not (g[2] == quote):
+                            continue
                 f2 = w.apply_block(bb, facts)
                 if atom is not None:
                     okc = True
@@ -258,8 +285,40 @@ def escape_rule(ctx, crate):
             return out
 
         init = frozenset({(flag, True)})
-        seen = mir.explore(b, some_t[0], (init, False, False), step, limit=400000)
-        ctx.paths_enumerated += len(seen)
+        seen = mir.explore(b, self.some_t[0], (init, False, False), step, limit=400000)
+        return bad, len(seen)
+
+
+def _is_tag_var(b, l):
+    """the String local that ends up as the token's tag: it is the first component of a pushed (tag, text) tuple"""
+    cache = b.__dict__.setdefault("_tagvars", None)
+    if cache is None:
+        cache = set()
+        from ..mir import strip_sites
+        for bb, t, c in b.calls():
+            if mir.last_seg(c) == "push" and "Vec" in c:
+                a = b.call_args(bb)
+                if len(a) == 2:
+                    v = strip_sites(a[1])
+                    if v[0] == "agg" and v[1] == "tuple" and len(v[2]) == 2:
+                        for sub in mir.subexprs(v[2][0]):
+                            if sub[0] == "var":
+                                cache.add(sub[1])
+        b.__dict__["_tagvars"] = cache
+    return l in cache
+
+
+def escape_rule(ctx, crate):
+    b = crate.fn("parsers::parser_line::parse_line")
+    if not ctx.require(b is not None, "R01-3", "R01-3|anchor", "parsers::parser_line::parse_line not found"):
+        return
+    ctx.analysed(b)
+    M = TokenizerModel(b)
+    if not ctx.require(M.ok, "R01-3", "R01-3|%s|model" % b.path, M.why or "tokenizer loop not recognised", b.path):
+        return
+    for X, who in sorted(ESC_T.items()):
+        bad, n = M.erased(X, "")
+        ctx.paths_enumerated += n
         name = {"`": "backquote", ",": "comma"}.get(X, X)
         ok = not bad
         ctx.ob("R01-3", b.path, "escaped %s keeps a trace of the escape (later: %s)" % (X, who), ok,
